@@ -33,6 +33,7 @@ def run(ctx, sess):
     ctx.rule('C03.j', 'repair appends END at the end of the file: in jls_rd_open no path leads from a call that can move the file position (pointer repair, scans, FSR rebuild) to jls_core_wr_end without passing jls_raw_seek_end')
     ctx.rule('C03.k', 'the backward scan for the last valid chunk examines every 8-byte aligned offset: traced with candidates that never match, the offsets handed to the header CRC cover every multiple of 8 between the first chunk and the end of the file (no offset falls between two windows)')
     ctx.rule('C03.m', 'repair appends at the end of the file: in jls_core_repair_fsr no path leads from a call that moves the file position (seek, chunk read) to a call that can append chunks (summary reductions, track close) without passing jls_raw_seek_end')
+    ctx.rule('C03.o', 'repair counts every chunk once: the calls that add the chunk just visited to the rebuilt level above (jls_core_fsr_summaryN / jls_core_fsr_summary1) run only while the flag set at a descent is clear, and the flag is cleared after the first chunk of the lower level')
     ctx.rule('C03.n', 'repair copies a chunk into a typed buffer only after checking what it is: every memcpy of the bytes just read into a level / sample buffer is preceded by a compare of the chunk tag and by a compare of the length with the capacity of the destination')
     ctx.rule('C03.d', 'truncation is reachable only from the repair branch of jls_rd_open')
     ra(ctx, P)
@@ -46,6 +47,7 @@ def run(ctx, sess):
     scan_coverage_rule(ctx, P)
     repair_position_rule(ctx, P)
     repair_copy_rule(ctx, P)
+    repair_descent_rule(ctx, P, 'C03.o')
     end_at_end_rule(ctx, P)
     from .c14 import head_table_rule, WRITER_ROOT_PREFIXES
     roots = sorted(f.name for f in P.all_functions() if f.api and f.name.startswith(WRITER_ROOT_PREFIXES))
@@ -571,3 +573,47 @@ def repair_copy_rule(ctx, P):
                    'without a tag check' if w1 is not None else 'without comparing its length with the destination'),
                (w1 or w2).render() if (w1 or w2) else None)
     ctx.floor('chunk copies in FSR repair', n, 3)
+
+
+
+def repair_descent_rule(ctx, P, rule):
+    """a chunk that the level above already accounts for is not summarised a second time after the descent"""
+    fn = P.fn('jls_core_repair_fsr')
+    ctx.saw(fn, 1)
+    # where the walk descends: stores that decrement the level variable
+    decs = [ev for ev in fn.stores() if ev.store_parts()[2] in ('pre--', 'post--', '-=') and strip_casts(ev.store_parts()[0]).get('op') == 'ref']
+    lvl_names = {strip_casts(ev.store_parts()[0]).get('name') for ev in decs if 'level' in (strip_casts(ev.store_parts()[0]).get('name') or '') or 'lvl' in (strip_casts(ev.store_parts()[0]).get('name') or '')}
+    decs = [ev for ev in decs if strip_casts(ev.store_parts()[0]).get('name') in lvl_names]
+    if not decs:
+        raise AnalysisBroken('jls_core_repair_fsr: no descent (decrement of the level) found')
+    # the flag(s) set true next to a descent
+    flags = set()
+    for d in decs:
+        for ev in d.block.events:
+            if ev.k == 'store':
+                lhs, rhs, o = ev.store_parts()
+                l0 = strip_casts(lhs)
+                if l0.get('op') == 'ref' and o == '=' and rhs is not None and const_of(strip_casts(rhs)) == 1:
+                    flags.add(l0['name'])
+    summ = [c for c in fn.calls() if c.callee in ('jls_core_fsr_summaryN', 'jls_core_fsr_summary1')]
+    if len(summ) < 2:
+        raise AnalysisBroken('jls_core_repair_fsr: %d summarising calls' % len(summ))
+    for c in summ:
+        guarded = False
+        for (bid, label) in control_deps_transitive(fn, c.block.id):
+            cc = strip_casts(fn.blocks[bid].cond) if fn.blocks[bid].cond is not None else None
+            if cc is None:
+                continue
+            neg = False
+            while cc.get('op') == 'un' and cc.get('o') == '!':
+                neg = not neg
+                cc = strip_casts(cc['k'][0])
+            if cc.get('op') == 'ref' and cc.get('name') in flags and ((neg and label == 'T') or (not neg and label == 'F')):
+                guarded = True
+        ctx.ob(rule, guarded and bool(flags), fn.name, '%s() skipped for the first chunk after a descent' % c.callee, c.where(),
+               'runs only while the descent flag (%s) is clear' % '/'.join(sorted(flags)) if guarded else
+               'the chunk the walk descends to is already counted in the rebuilt level above; summarising it again doubles its entries there (statistics served from that level are wrong after a repair)')
+    # and the flag is cleared once the first chunk was passed
+    for f in sorted(flags):
+        clears = [ev for ev in fn.stores() if strip_casts(ev.store_parts()[0]).get('name') == f and ev.store_parts()[1] is not None and const_of(strip_casts(ev.store_parts()[1])) == 0]
+        ctx.ob(rule, len(clears) >= len(summ), fn.name, 'descent flag %s cleared after each guarded call' % f, fn.where(), '%d clearing stores for %d summarising calls' % (len(clears), len(summ)))
